@@ -202,7 +202,15 @@ func callsCoq(cs []idpCall) string {
 // ---------------------------------------------------------------------------------------------
 // the authenticator under test
 
+// provOpts is the part of the provider configuration that is varied at mux construction
+type provOpts struct {
+	HD         string // google.domain (hosted domain)
+	Prompt     string // google.prompt
+	OktaServer string // okta.server
+}
+
 type world struct {
+	prov   provOpts
 	mux    *auth.AuthenticatorMux
 	addrs  []string
 	doms   []string
@@ -215,13 +223,17 @@ func (w *world) cfgCoq() string {
 	return fmt.Sprintf("(mkCfg %s %s %s)", c.Strs(w.addrs), c.Strs(w.doms), c.Z(lifetimeTTL))
 }
 
+func (w *world) ruleJSON() map[string]interface{} {
+	return map[string]interface{}{"addresses": w.addrs, "domains": w.doms, "provider_config": w.prov}
+}
+
 func mustURL(s string) *url.URL {
 	u, err := url.Parse(s)
 	c.Must(err)
 	return u
 }
 
-func buildWorld(f *idp, statsdPort int, addrs, doms []string, mustValidate bool) *world {
+func buildWorld(f *idp, statsdPort int, addrs, doms []string, po provOpts, mustValidate bool) *world {
 	cfg := auth.DefaultAuthConfig()
 	cfg.ServerConfig.Host = authHost
 	cfg.ServerConfig.Scheme = "https"
@@ -238,9 +250,13 @@ func buildWorld(f *idp, statsdPort int, addrs, doms []string, mustValidate bool)
 	cfg.LoggingConfig.Enable = false
 	gc := auth.GroupCacheConfig{CacheIntervalConfig: auth.CacheIntervalConfig{Provider: 10 * time.Minute, Refresh: 10 * time.Minute}}
 	cfg.ProviderConfigs = map[string]auth.ProviderConfig{
-		"g": {ProviderType: "google", ProviderSlug: "google", ClientConfig: auth.ClientConfig{ID: "gid", Secret: "gsecret"}, GroupCacheConfig: gc},
+		"g": {ProviderType: "google", ProviderSlug: "google", ClientConfig: auth.ClientConfig{ID: "gid", Secret: "gsecret"}, GroupCacheConfig: gc,
+			GoogleProviderConfig: auth.GoogleProviderConfig{HostedDomain: po.HD, ApprovalPrompt: po.Prompt}},
 		"o": {ProviderType: "okta", ProviderSlug: "okta", ClientConfig: auth.ClientConfig{ID: "oid", Secret: "osecret"},
-			OktaProviderConfig: auth.OktaProviderConfig{OrgURL: "okta.invalid"}, GroupCacheConfig: gc},
+			OktaProviderConfig: auth.OktaProviderConfig{OrgURL: "okta.invalid", ServerID: po.OktaServer}, GroupCacheConfig: gc},
+		"c": {ProviderType: "cognito", ProviderSlug: "cognito", ClientConfig: auth.ClientConfig{ID: "cid", Secret: "csecret"}, GroupCacheConfig: gc,
+			AmazonCognitoProviderConfig: auth.AmazonCognitoProviderConfig{OrgURL: "cognito.invalid", UserPoolID: "pool-1", Region: "us-east-1",
+				Credentials: auth.CognitoCredentials{ID: "AKIDEXAMPLE", Secret: "not-a-secret"}}},
 	}
 	if mustValidate {
 		c.Must(cfg.Validate())
@@ -250,16 +266,19 @@ func buildWorld(f *idp, statsdPort int, addrs, doms []string, mustValidate bool)
 	m, err := auth.NewAuthenticatorMux(cfg, sc)
 	c.Must(err)
 	ps := auth.VerifC09Providers(m)
-	g, o := ps["google"], ps["okta"]
-	if g == nil || o == nil {
+	g, o, cg := ps["google"], ps["okta"], ps["cognito"]
+	if g == nil || o == nil || cg == nil {
 		c.Must(fmt.Errorf("providers not built"))
 	}
+	cg.Data().RedeemURL = mustURL(f.srv.URL + "/cognito/token")
+	cg.Data().ValidateURL = mustURL(f.srv.URL + "/cognito/userInfo")
+	cg.Data().ProfileURL = mustURL(f.srv.URL + "/cognito/userInfo")
 	g.Data().RedeemURL = mustURL(f.srv.URL + "/google/token")
 	g.Data().ValidateURL = mustURL(f.srv.URL + "/google/tokeninfo")
 	o.Data().RedeemURL = mustURL(f.srv.URL + "/okta/token")
 	o.Data().ValidateURL = mustURL(f.srv.URL + "/okta/introspect")
 	o.Data().ProfileURL = mustURL(f.srv.URL + "/okta/userinfo")
-	w := &world{mux: m, addrs: addrs, doms: doms}
+	w := &world{prov: po, mux: m, addrs: addrs, doms: doms}
 	w.cookie, err = aead.NewMiscreantCipher(cookieSecret)
 	c.Must(err)
 	w.code, err = aead.NewMiscreantCipher(codeSecret)
@@ -350,7 +369,8 @@ func refreshCoq(a ans) string {
 	return fmt.Sprintf("(RStatus %d %s %s)", a.Status, jerr, jtok)
 }
 
-func validateCoq(a ans) string {
+// validateCoq: the oracle decodes the body into the struct the provider named by slug uses
+func validateCoq(a ans, slug string) string {
 	if a.Status == 0 {
 		return "VReset"
 	}
@@ -358,8 +378,17 @@ func validateCoq(a ans) string {
 		Active bool `json:"active"`
 	}
 	ok := json.Unmarshal([]byte(a.Body), &v) == nil
+	if slug == "cognito" {
+		var u struct {
+			EmailAddress string `json:"email"`
+			Username     string `json:"username"`
+		}
+		ok = json.Unmarshal([]byte(a.Body), &u) == nil
+	}
 	return fmt.Sprintf("(VStatus %d %s %s)", a.Status, c.Bool(ok), c.Bool(v.Active))
 }
+
+var slugs = []string{"google", "okta", "cognito"}
 
 func genRefresh(r *c.Rng) ans {
 	exp := []int{900, 1500, 3600}[r.Intn(3)]
@@ -688,7 +717,9 @@ func (w *world) observeSignIn(rec *httptest.ResponseRecorder, slug string, f *id
 		o.Page = 0
 	}
 	o.Leak = w.leaks(body)
-	o.Calls = f.take()
+	if f != nil {
+		o.Calls = f.take()
+	}
 	return o
 }
 
@@ -760,8 +791,11 @@ func (w *world) runSignIn(f *idp, sc siCase, v int64) (siObs, time.Time) {
 }
 
 func pkind(slug string) string {
-	if slug == "okta" {
+	switch slug {
+	case "okta":
 		return "Okta"
+	case "cognito":
+		return "Cognito"
 	}
 	return "Google"
 }
@@ -769,15 +803,15 @@ func pkind(slug string) string {
 func (w *world) signInCase(f *idp, sc siCase) c.Case {
 	o, _ := w.runSignIn(f, sc, 0)
 	coq := fmt.Sprintf("CSignIn %s %s %s %s %s %s %s %s", w.tab(sc.Cookie.S.Email), w.cfgCoq(), pkind(sc.Slug), sc.Req.coq(),
-		sc.Cookie.coq(), refreshCoq(sc.Refresh), validateCoq(sc.Validate), o.coq())
-	return c.Case{Coq: coq, JSON: map[string]interface{}{"kind": "sign_in", "rule": map[string]interface{}{"addresses": w.addrs, "domains": w.doms},
+		sc.Cookie.coq(), refreshCoq(sc.Refresh), validateCoq(sc.Validate, sc.Slug), o.coq())
+	return c.Case{Coq: coq, JSON: map[string]interface{}{"kind": "sign_in", "rule": w.ruleJSON(),
 		"provider": sc.Slug, "request": sc.Req, "cookie": sc.Cookie, "idp_refresh": sc.Refresh, "idp_validate": sc.Validate,
 		"observed": map[string]interface{}{"status": o.Status, "has_code": o.HasCode, "code_session": o.Code, "cookie_ops": o.OpsJSON,
 			"idp_calls": o.Calls, "body_leak": o.Leak, "page": o.Page}}}
 }
 
 func genSiCase(r *c.Rng) siCase {
-	return siCase{Slug: r.Pick([]string{"google", "okta"}), Req: genSiReq(r), Cookie: genCookie(r), Refresh: genRefresh(r), Validate: genValidate(r)}
+	return siCase{Slug: r.Pick(slugs), Req: genSiReq(r), Cookie: genCookie(r), Refresh: genRefresh(r), Validate: genValidate(r)}
 }
 
 // ---------------------------------------------------------------------------------------------
@@ -840,7 +874,7 @@ func (w *world) startCase(r *c.Rng) c.Case {
 	if !q.InnerOK {
 		inner = r.Pick(badRedirects[:3])
 	}
-	slug := r.Pick([]string{"google", "okta"})
+	slug := r.Pick(slugs)
 	rec, outer := w.start(slug, q, inner)
 	csrf := csrfOf(rec, slug)
 	var statePlain *string
@@ -879,7 +913,7 @@ func idToken(email string) string {
 }
 
 func genCbCase(r *c.Rng) cbCase {
-	k := cbCase{Slug: r.Pick([]string{"google", "okta"}), Method: "GET", Code: "idp-code-" + c.Itoa(r.Intn(100)), StateKind: "genuine", CookieK: "genuine",
+	k := cbCase{Slug: r.Pick(slugs), Method: "GET", Code: "idp-code-" + c.Itoa(r.Intn(100)), StateKind: "genuine", CookieK: "genuine",
 		RedirOK: true, Email: r.Pick(emailPool), RedeemSt: 200, OwnNonce: r.Pick([]string{"abc123", "", "n:x"})}
 	if r.Chance(0.6) {
 		k.Email = r.Pick(emailPool[:5])
@@ -1041,7 +1075,7 @@ func (w *world) runCallback(f *idp, k cbCase, v int64) (string, string, string, 
 	cleared := csrfCleared(rec, k.Slug)
 	calls := f.take()
 	obs := fmt.Sprintf("(mkCO %d %s %s %s %s)", rec.Code, c.OptStr(location), savedCoq, c.Bool(cleared), callsCoq(calls))
-	js := map[string]interface{}{"kind": "callback", "rule": map[string]interface{}{"addresses": w.addrs, "domains": w.doms}, "case": k,
+	js := map[string]interface{}{"kind": "callback", "rule": w.ruleJSON(), "case": k,
 		"state_decoded": decoded, "csrf_cookie": csrfVal,
 		"observed": map[string]interface{}{"status": rec.Code, "location": location, "saved": saved, "csrf_cleared": cleared, "idp_calls": calls}}
 	return rq, rd, obs, saved, js
@@ -1074,7 +1108,7 @@ func (w *world) histCase(f *idp, r *c.Rng, maxLen int) c.Case {
 			steps = append(steps, fmt.Sprintf("(EvTick %d, HTick)", d))
 			js = append(js, map[string]interface{}{"tick": d})
 		case choice == 9 || (choice == 8 && r.Chance(0.4)): // IdP callback
-			k := cbCase{Slug: r.Pick([]string{"google", "okta"}), Method: "GET", Code: "idp-code", StateKind: "genuine", CookieK: "genuine", RedirOK: true,
+			k := cbCase{Slug: r.Pick(slugs), Method: "GET", Code: "idp-code", StateKind: "genuine", CookieK: "genuine", RedirOK: true,
 				Email: r.Pick(emailPool[:6]), RedeemSt: 200}
 			if i > 0 && r.Chance(0.3) {
 				k.CookieK = r.Pick([]string{"other-flow", "absent"})
@@ -1087,7 +1121,7 @@ func (w *world) histCase(f *idp, r *c.Rng, maxLen int) c.Case {
 			steps = append(steps, fmt.Sprintf("(EvCallback %s %s, HCb %s)", rq, rd, obs))
 			js = append(js, j)
 		default: // /sign_in presenting some cookie
-			sc := siCase{Slug: r.Pick([]string{"google", "okta"}), Req: genSiReq(r), Refresh: genRefresh(r), Validate: genValidate(r)}
+			sc := siCase{Slug: r.Pick(slugs), Req: genSiReq(r), Refresh: genRefresh(r), Validate: genValidate(r)}
 			// margin rule: a re-presented session must stay >= 60 s away from every deadline
 			// comparison, so no refresh answer without expires_in here (deadline = now)
 			if r.Chance(0.6) || sc.Refresh.Body == `{}` {
@@ -1119,13 +1153,13 @@ func (w *world) histCase(f *idp, r *c.Rng, maxLen int) c.Case {
 			}
 			o, _ := w.runSignIn(f, sc, v)
 			issued = append(append([]rsess{}, reverse(o.Sets)...), issued...)
-			steps = append(steps, fmt.Sprintf("(EvSignIn %s %s %s %s %s, HSi %s)", pkind(sc.Slug), sc.Req.coq(), pc, refreshCoq(sc.Refresh), validateCoq(sc.Validate), o.coq()))
+			steps = append(steps, fmt.Sprintf("(EvSignIn %s %s %s %s %s, HSi %s)", pkind(sc.Slug), sc.Req.coq(), pc, refreshCoq(sc.Refresh), validateCoq(sc.Validate, sc.Slug), o.coq()))
 			js = append(js, map[string]interface{}{"sign_in": sc, "at": v, "presented": pc,
 				"observed": map[string]interface{}{"status": o.Status, "has_code": o.HasCode, "code_session": o.Code, "cookie_ops": o.OpsJSON, "idp_calls": o.Calls}})
 		}
 	}
 	return c.Case{Coq: fmt.Sprintf("CHist %s %s %s", w.tab(emails...), w.cfgCoq(), c.List(steps)),
-		JSON: map[string]interface{}{"kind": "history", "rule": map[string]interface{}{"addresses": w.addrs, "domains": w.doms}, "steps": js}}
+		JSON: map[string]interface{}{"kind": "history", "rule": w.ruleJSON(), "steps": js}}
 }
 
 func reverse(l []rsess) []rsess {
@@ -1158,18 +1192,35 @@ func main() {
 	f := newIdp()
 	defer f.srv.Close()
 
+	// e-mail rules x provider configurations, each built by NewAuthenticatorMux from a full
+	// Configuration (Validate()d unless noted)
+	p0 := provOpts{}
+	pEx := provOpts{HD: "example.com"}
+	pOther := provOpts{HD: "other.org"}
+	pAll := provOpts{HD: "example.com", Prompt: "select_account", OktaServer: "default"}
+	dEx := []string{"example.com"}
+	dTwo := []string{"example.com", "other.org"}
+	aTwo := []string{"alice@example.com", "Bob@Example.com"}
 	worlds := []*world{
-		buildWorld(f, port, nil, []string{"example.com"}, true),
-		buildWorld(f, port, nil, []string{"example.com", "other.org"}, true),
-		buildWorld(f, port, []string{"alice@example.com", "Bob@Example.com"}, nil, true),
-		buildWorld(f, port, nil, []string{"*"}, true),
-		buildWorld(f, port, []string{"*"}, nil, true),
+		buildWorld(f, port, nil, dEx, p0, true),
+		buildWorld(f, port, nil, dTwo, p0, true),
+		buildWorld(f, port, aTwo, nil, p0, true),
+		// google hosted domain set: equal to the rule's domain, unequal to it, with address rules
+		buildWorld(f, port, nil, dEx, pEx, true),
+		buildWorld(f, port, nil, dEx, pOther, true),
+		buildWorld(f, port, nil, dTwo, pOther, true),
+		buildWorld(f, port, aTwo, nil, pEx, true),
+		buildWorld(f, port, aTwo, nil, pOther, true),
+		buildWorld(f, port, aTwo, nil, pAll, true),
+		buildWorld(f, port, nil, []string{"*"}, pEx, true),
+		buildWorld(f, port, []string{"*"}, nil, p0, true),
 		// rejected by Configuration.Validate, accepted by NewAuthenticatorMux: addresses win (mux.go:22-27)
-		buildWorld(f, port, []string{"carol@other.org"}, []string{"example.com"}, false),
-		buildWorld(f, port, nil, nil, false),
+		buildWorld(f, port, []string{"carol@other.org"}, dEx, p0, false),
+		buildWorld(f, port, []string{"carol@other.org"}, dEx, pEx, false),
+		buildWorld(f, port, nil, nil, pEx, false),
 	}
 	pickW := func() *world {
-		if r.Chance(0.8) {
+		if r.Chance(0.3) {
 			return worlds[r.Intn(3)]
 		}
 		return worlds[r.Intn(len(worlds))]
@@ -1187,7 +1238,7 @@ func main() {
 	dead := rsess{Email: "alice@example.com", Access: "at-old", Rtok: "rt-1", Refresh: 600, Lifetime: -60}
 	notAllowed := rsess{Email: "eve@evil.com", Access: "at-old", Rtok: "rt-1", Refresh: 600, Lifetime: 3600}
 	noAccess := rsess{Email: "alice@example.com", Access: "", Rtok: "rt-1", Refresh: 600, Lifetime: 3600}
-	for _, slug := range []string{"google", "okta"} {
+	for _, slug := range slugs {
 		for _, sc := range []siCase{
 			{nil, slug, okReq, cookieIn{Kind: "cookie", S: fresh}, okRefresh, okValidate},
 			{nil, slug, okReq, cookieIn{Kind: "cookie", S: due}, okRefresh, okValidate},
@@ -1240,6 +1291,11 @@ func main() {
 		cases = append(cases, w0.callbackCase(f, k))
 	}
 
+	for mode := 0; mode < 5; mode++ {
+		for k := 0; k < 4; k++ {
+			cases = append(cases, worlds[k%3].batchCase(f, r, mode))
+		}
+	}
 	for _, script := range browserCorpus {
 		cases = append(cases, w0.browserCase(f, r, 0, script))
 	}
@@ -1247,6 +1303,7 @@ func main() {
 	// ---- generated ----
 	nHist := a.N / 25
 	nBrowser := a.N / 16
+	nBatch := a.N / 16
 	nCb := a.N / 5
 	nStart := a.N / 20
 	maxLen := 12
@@ -1257,6 +1314,9 @@ func main() {
 	for i := 0; i < nHist; i++ {
 		gen = append(gen, pickW().histCase(f, r, maxLen))
 	}
+	for i := 0; i < nBatch; i++ {
+		gen = append(gen, pickW().batchCase(f, r, -1))
+	}
 	for i := 0; i < nBrowser; i++ {
 		gen = append(gen, pickW().browserCase(f, r, maxLen, nil))
 	}
@@ -1266,7 +1326,7 @@ func main() {
 	for i := 0; i < nStart; i++ {
 		gen = append(gen, pickW().startCase(r))
 	}
-	for i := 0; i < a.N-nHist-nBrowser-nCb-nStart; i++ {
+	for i := 0; i < a.N-nHist-nBrowser-nBatch-nCb-nStart; i++ {
 		gen = append(gen, pickW().signInCase(f, genSiCase(r)))
 	}
 	// spread the expensive kinds (histories, callbacks) evenly over the Coq shards
